@@ -639,7 +639,9 @@ pub fn main_with(engine: &str, cases: &[Case]) {
         i += 1;
     }
     simcore::install_panic_hook(verbose);
-    sched::init_pool(64);
+    if !cfg!(miri) {
+        sched::init_pool(64);
+    }
     simcore::install_rayon_seam();
     let stdout = std::io::stdout();
     let mut out = stdout.lock();
